@@ -912,6 +912,7 @@ func main() {
 	writeWireFuncs(root, filepath.Join(*out, "WireFuncs.lean"))
 	writeTemplateFacts(*repo, filepath.Join(*out, "Templates.lean"))
 	writeAliasFacts(root, *repo, filepath.Join(*out, "Aliasing.lean"))
+	writeToolFacts(*repo, filepath.Join(*out, "Tools.lean"))
 
 	// F9: lazyproto accessors: helper used, expected wire type, csproto decode function, scratch slice
 	lz, err := load(filepath.Join(*repo, "lazyproto"))
